@@ -206,7 +206,7 @@ def shard_worker(args):
                     continue
                 stats['scenarios'] += 1
                 stats['ops'] += len(li)
-                verdicts = prop.judge(sc, li, lo)
+                verdicts = prop.judge(sc, li, lo) if not sc.get('no_judge') else []
                 for (clause, detail) in verdicts:
                     nfail += 1
                     if len(failures) < 20 or not any(f['kind'] == 'judge' and f.get('clause') == clause for f in failures):
@@ -267,7 +267,7 @@ def eval_one(prop, sc, judge_only=False):
         li, lo = prop.run_impl(sc)
     except Exception:
         return 'harness', {'detail': traceback.format_exc()[-500:]}
-    v = prop.judge(sc, li, lo)
+    v = prop.judge(sc, li, lo) if not sc.get('no_judge') else []
     if v:
         return 'judge', {'clause': v[0][0], 'detail': v[0][1], 'lines_in': li, 'impl_out': lo}
     if judge_only or sc.get('no_model'):
